@@ -208,7 +208,8 @@ def run_paths(contract, registry=None, concrete_args=None, max_paths=4000, timeo
       if contract.closure_env is not None:      # names the function reads from enclosing scopes
         for k, v in contract.closure_env(args).items():
           fr.env.setdefault(k, v)
-      witness = dict(args)
+      # the ENTRY state of the arguments (modelled objects are mutated in place by the body)
+      witness = {k: ip.old_env[k] for k in args}
       result, exc = None, None
       try:
         body = node.body if contract.body_slice is None else contract.body_slice(node)
@@ -251,8 +252,12 @@ def run_paths(contract, registry=None, concrete_args=None, max_paths=4000, timeo
       pass
     except Unsupported as e:
       unsupported.append(str(e))
+      import os
+      if os.environ.get("PYSYM_TRACE"): traceback.print_exc()
     for ob in ctx.obligations:
-      if ob.witness_env is None: ob.witness_env = dict(args)
+      if ob.witness_env is None:
+        ob.witness_env = {k: ip.old_env.get(k, v) for k, v in args.items()} \
+            if getattr(ip, "old_env", None) else dict(args)
     obligations.extend(ctx.obligations)
     for name, assm in ctx.covers:
       covers.setdefault(name, []).append(assm)
@@ -269,6 +274,14 @@ def concretize_args(contract, ob, model):
     return contract.custom_concretize(contract, ob, model, ev)
   out = {}
   later = []
+  ints = set(range(-2, 7))
+  for t in _int_terms(ob.witness_env):
+    try:
+      n = ev(t).as_long()
+      ints.update((n - 1, n, n + 1))
+    except Exception:
+      pass
+  V.REPLAY_UNIVERSE = tuple(sorted(ints))
   for name, shape in contract.params.items():
     if not isinstance(shape, Shape):
       out[name] = shape
